@@ -261,6 +261,8 @@ class StageableMixin:
         self.staged_count = getattr(self, "staged_count", 0) + 1
         if self.spec.get("stage_status"):
             return self._status("stage", f, n)
+        if self.spec.get("stage_lists") == "self":
+            return [self]  # a device that answers with itself only (its components are not listed)
         # like ophyd: staging a device stages its components and reports all of them
         return [self] + [d for d in self.world.values() if getattr(d, "parent", None) is self]
 
